@@ -15,7 +15,7 @@ from typing import Any, Dict, List, Optional, Tuple
 from rpv import families
 from rpv.checks.c16 import all_types_history
 from rpv.checks.inproc_util import candidate_days, clean_cut
-from rpv.cli_core import cli_histories, cli_profile
+from rpv.cli_core import cli_histories, cli_profile, generator_crash
 from rpv.drive_cli import Workspace
 from rpv.drive_inproc import frac
 from rpv.expected import Expected
@@ -102,6 +102,11 @@ def _one(ctx: Any, expected: Expected, case: Dict[str, Any], name: str) -> None:
         ctx.count("executions")
         ctx.count("valid_cases")
         if res.exit != 0:
+            crash = generator_crash(res.stderr, f"tax_report_{country}.py")
+            if crash:
+                # a valid input for which the generator under test dies: its fractions are listed nowhere
+                ctx.violation("taxreport.generator-crashed", {"error": crash, "country": country}, case)
+                return
             ctx.count("unobservable")
             ctx.tag("tag_unobservable", f"cli exit {res.exit}: {res.stderr.strip().splitlines()[-1][:140] if res.stderr.strip() else ''}")
             return
